@@ -186,8 +186,24 @@ TEMPORAL_SDL = """
 input When { days: [Date!] at: DateTime tags: [String] }
 type Tick { n: Int day: Date }
 type Query { ping: Int }
-type Subscription { ticks(days: [Date!], at: [DateTime], w: When, label: String): Tick }
+type Subscription { ticks(days: [Date!], at: [DateTime], w: When, label: String, n: Int, on: Boolean, x: Float): Tick }
 """
+# the SAME subscription text several times on one engine: each request's variables are coerced for THAT request -- a value
+# that equals an earlier one in Python (True == 1 == 1.0) but has another type is refused / coerced on its own
+SEQUENCE_REQUESTS = [
+    ("subscription ($n: Int!) { ticks(n: $n) { n } }", {"n": 1}, False),
+    ("subscription ($n: Int!) { ticks(n: $n) { n } }", {"n": True}, True),
+    ("subscription ($n: Int!) { ticks(n: $n) { n } }", {"n": 1.0}, False),
+    ("subscription ($n: Int!) { ticks(n: $n) { n } }", {"n": 1.5}, True),
+    ("subscription ($on: Boolean!) { ticks(on: $on) { n } }", {"on": True}, False),
+    ("subscription ($on: Boolean!) { ticks(on: $on) { n } }", {"on": 1}, True),
+    ("subscription ($on: Boolean!) { ticks(on: $on) { n } }", {"on": False}, False),
+    ("subscription ($on: Boolean!) { ticks(on: $on) { n } }", {"on": 0}, True),
+    ("subscription ($x: Float!) { ticks(x: $x) { n } }", {"x": 1}, False),
+    ("subscription ($x: Float!) { ticks(x: $x) { n } }", {"x": True}, True),
+    ("subscription ($n: Int!) { ticks(n: $n) { n } }", {}, True),
+    ("subscription ($n: Int!) { ticks(n: $n) { n } }", {"n": 1}, False),
+]
 TEMPORAL_REQUESTS = [
     # variables whose coerced value is NOT accepted as a raw value again (a Date is parsed from a string; the parsed
     # date is not a string): whatever the engine does with the variables per event, every event is answered like
@@ -238,6 +254,30 @@ async def temporal_variable_scenario():
             problems.append({"sdl": TEMPORAL_SDL, "query": q, "variables": variables, "events": events, "raised": raised,
                              "source_started": list(started), "responses": got,
                              "executing_the_request_against_each_event": want})
+    # one text, several requests in a row
+    for idx, (q, variables, must_refuse) in enumerate(SEQUENCE_REQUESTS):
+        del started[:]
+        got, raised = [], None
+        try:
+            async for r in engine.subscribe(q, variables=_copy.deepcopy(variables)):
+                got.append(r)
+                if len(got) > 10:
+                    break
+        except Exception as e:  # pylint: disable=broad-except
+            raised = repr(e)
+        n += 1
+        if must_refuse:
+            ok = not raised and not started and len(got) == 1 and got[0].get("data") is None and got[0].get("errors")
+            what = "a request whose variables fail coercion must yield one errors-only response without starting the source"
+        else:
+            want = [await engine.execute(q, variables=_copy.deepcopy(variables), initial_value=ev) for ev in events]
+            ok = not raised and len(started) == 1 and [_canon(x) for x in got] == [_canon(x) for x in want]
+            what = "every event answered like executing the request against it"
+        if not ok:
+            problems.append({"sdl": TEMPORAL_SDL, "query": q, "variables": variables, "events": events, "raised": raised,
+                             "source_started": list(started), "responses": got, "expected": what,
+                             "executing_the_request_against_each_event": None,
+                             "requests_before_on_this_engine": [(a, b) for a, b, _c in SEQUENCE_REQUESTS[:idx]]})
     return problems, n
 
 
